@@ -21,7 +21,7 @@ CFGS = {
 }
 
 
-NHIST = {"quick": 2400, "thorough": 40000}
+NHIST = {"quick": 2400, "thorough": 20000}
 FROM5 = [dict(tbl="t5", alias="", jt="", on=[])]
 
 
